@@ -9,7 +9,7 @@ def extra(ctx):
     ok, exe, log = vlib.build_harness("c26", race=True)
     if not ok:
         return {"lines": ["HARNESS-ERROR race harness does not build: " + log.strip()[-600:]], "stats": stats}
-    n = {"quick": 10, "thorough": 240}[ctx["tier"]]
+    n = {"quick": 8, "thorough": 240}[ctx["tier"]]
     outdir = os.path.join(ctx["outdir"], "race")
     prop = {"id": "C26"}
     rc, out, trace, hstats = vlib.run_harness_once(exe, prop, ctx["tier"], ctx["seed"], "check", n, outdir, timeout=3000)
@@ -46,7 +46,7 @@ PROP = {
     "harness": "c26",
     "race_harness": True,
     "modelrun": {"name": "c26", "extracted": ["c25_model"], "driver": "ocaml/c26/c26_run.ml"},
-    "tiers": {"quick": {"cases": 0}, "thorough": {"cases": 0}},
+    "tiers": {"quick": {"cases": 4}, "thorough": {"cases": 40}},
     "search_cases": 0,
     "search_rounds": 0,
     "extra": extra,
@@ -54,7 +54,8 @@ PROP = {
             "process, a fixed race witness (corpus/C26) or a seeded concurrent stress of table-respecting operations "
             "(route changes from several Adj-RIB-Ins and the Loc-RIB, client registration, import/export policy "
             "replacement in quiet phases, UPDATE processing on established sessions), GOMAXPROCS 1..16; the plain "
-            "build run by the generic stage has no cases; counts are in coverage.extra_stage",
+            "build run by the generic stage runs a few of the same stress cases for completion only (these are the "
+            "cases counted here; every case is non-trivial); the race-detector counts are in coverage.extra_stage",
     "explanation": "PARTIAL by design (DESIGN.md 3.3/6/8): lock-set discipline over the access table regenerated from "
                    "the source on every run, for the mutex-guarded fields listed in Spec/LockSpec.v; goroutine-confined "
                    "session fields are not claimed; the race detector's happens-before is only sampled by the stress",
